@@ -45,7 +45,7 @@ def harness_cmds(cfile, h, outdir, reach=False, extra_defs=()):
     cc = ['goto-cc', '--function', name] + defs + [cfile, '-o', a]
     enforce = h.get('enforce', 'none')
     gi = None
-    if enforce != 'none' or h.get('replace') or h.get('loops', '1') != '0':
+    if enforce != 'none' or h.get('replace') or h.get('loopcontracts', '1') != '0':
         gi = ['goto-instrument', '--dfcc', name]
         if enforce != 'none': gi += ['--enforce-contract', enforce]
         for r in [x for x in h.get('replace', '').split(',') if x]:
